@@ -81,7 +81,11 @@ def to_symbolic_model(model: Model) -> SymbolicModel:
     symbols: dict[str, sympy.Symbol | sympy.Expr] = variables | parameters | data  # type: ignore
 
     # Insert derived into symbols
-    for k, v in model.get_raw_derived().items():
+    # Sorted by dependencies, as the declaration order is arbitrary
+    derived = model.get_raw_derived()
+    for k in cache.order:
+        if (v := derived.get(k)) is None:
+            continue
         if (
             expr := fn_to_sympy(v.fn, origin=k, model_args=[symbols[i] for i in v.args])
         ) is None:
